@@ -37,9 +37,9 @@ theorem plainOctet_spec {c : UInt8} (h : plainOctet c = true) : c ≠ 0 ∧ isHo
   exact ⟨h.1.1.1, h.1.1.2, h.1.2, h.2⟩
 
 /-- the first stage of the two scans: up to the end of the C string -/
-theorem cstr_compose (a t : Bytes) (ha : ∀ c ∈ a, plainOctet c = true) :
+theorem cstr_compose (a t : Bytes) (ha : ∀ c ∈ a, c ≠ 0 ∧ isHostDelim c = false) :
     (a ++ t).takeWhile (· ≠ 0) = a ++ t.takeWhile (· ≠ 0) :=
-  takeWhile_append_of_all _ a t (fun c hc => by simpa using (plainOctet_spec (ha c hc)).1)
+  takeWhile_append_of_all _ a t (fun c hc => by simpa using (ha c hc).1)
 
 theorem tail_cstr_head {t : Bytes} (ht : TailOk t) :
     t.takeWhile (· ≠ 0) = [] ∨ ∃ d r, t.takeWhile (· ≠ 0) = d :: r ∧ isHostDelim d = true := by
@@ -52,19 +52,19 @@ theorem tail_cstr_head {t : Bytes} (ht : TailOk t) :
       · exact absurd h0 hc
       · exact Or.inr ⟨c, t'.takeWhile (· ≠ 0), by simp [hc], hd⟩
 
-theorem hostScan_compose (a t : Bytes) (ha : ∀ c ∈ a, plainOctet c = true) (ht : TailOk t) : hostScan (a ++ t) = a := by
+theorem hostScan_compose (a t : Bytes) (ha : ∀ c ∈ a, c ≠ 0 ∧ isHostDelim c = false) (ht : TailOk t) : hostScan (a ++ t) = a := by
   unfold hostScan
   rw [cstr_compose a t ha]
-  have hall : ∀ c ∈ a, (fun c => !isHostDelim c) c = true := fun c hc => by simp [(plainOctet_spec (ha c hc)).2.1]
+  have hall : ∀ c ∈ a, (fun c => !isHostDelim c) c = true := fun c hc => by simp [(ha c hc).2]
   rcases tail_cstr_head ht with h0 | ⟨d, r, hdr, hd⟩
   · rw [h0, List.append_nil]; exact takeWhile_all _ a hall
   · rw [hdr]; exact takeWhile_append_stop _ a d r hall (by simp [hd])
 
-theorem afterHost_compose (a t : Bytes) (ha : ∀ c ∈ a, plainOctet c = true) (ht : TailOk t) :
+theorem afterHost_compose (a t : Bytes) (ha : ∀ c ∈ a, c ≠ 0 ∧ isHostDelim c = false) (ht : TailOk t) :
     afterHost (a ++ t) = t.takeWhile (· ≠ 0) := by
   unfold afterHost
   rw [cstr_compose a t ha]
-  have hall : ∀ c ∈ a, (fun c => !isHostDelim c) c = true := fun c hc => by simp [(plainOctet_spec (ha c hc)).2.1]
+  have hall : ∀ c ∈ a, (fun c => !isHostDelim c) c = true := fun c hc => by simp [(ha c hc).2]
   rcases tail_cstr_head ht with h0 | ⟨d, r, hdr, hd⟩
   · rw [h0, List.append_nil]; exact dropWhile_all _ a hall
   · rw [hdr]; exact dropWhile_append_stop _ a d r hall (by simp [hd])
@@ -160,7 +160,7 @@ theorem parseHier_compose_noport (cfg : Config) (ip : Bytes → IpClass) (proto 
       finish cfg ip proto image [] h (((defaultPort proto).getD 0 : Nat) : Int) (urlPath (h ++ tail)) := by
   rcases hh with ⟨hne, hb, hall⟩
   unfold parseHier
-  rw [hostScan_compose h tail hall ht, loginSplit_plain _ (fun c hc => (plainOctet_spec (hall c hc)).2.2.1)]
+  rw [hostScan_compose h tail (fun c hc => ⟨(plainOctet_spec (hall c hc)).1, (plainOctet_spec (hall c hc)).2.1⟩) ht, loginSplit_plain _ (fun c hc => (plainOctet_spec (hall c hc)).2.2.1)]
   simp only
   unfold hierAfter
   rw [bufAtCheck_plain _ hb, splitHostPort_noport h hb (fun c hc => (plainOctet_spec (hall c hc)).2.2.2)]
